@@ -38,7 +38,8 @@ find_alg(jose_cfg_t *cfg, json_t *jws, json_t *sig, const json_t *jwk)
     if (!hdr)
         return NULL;
 
-    if (json_unpack(hdr, "{s:s}", "alg", &halg) < 0) {
+    halg = json_string_value(json_object_get(hdr, "alg"));
+    if (!halg) {
         for (alg = jose_hook_alg_list(); alg && !halg; alg = alg->next) {
             if (alg->kind != JOSE_HOOK_ALG_KIND_SIGN)
                 continue;
